@@ -6,6 +6,7 @@ import (
 	"fmt"
 	"strconv"
 	"strings"
+	"sync"
 	"testing"
 
 	"github.com/AdguardTeam/golibs/cache"
@@ -21,6 +22,33 @@ type Op struct {
 	Kind string `json:"kind"` // set get del clear stats
 	Key  string `json:"key,omitempty"`
 	Val  []byte `json:"val,omitempty"`
+	// Big, when positive, makes the value the first Big bytes of one shared
+	// zeroed 1 GiB buffer (the cache does not copy values, so accounted sizes
+	// beyond 2^32 are reachable without that much memory).
+	Big int `json:"big,omitempty"`
+}
+
+const bigBufLen = 1 << 30
+
+var (
+	bigOnce sync.Once
+	bigBuf  []byte
+)
+
+func (o Op) value() []byte {
+	if o.Big <= 0 {
+		return o.Val
+	}
+	bigOnce.Do(func() { bigBuf = make([]byte, bigBufLen) })
+	return bigBuf[:min(o.Big, bigBufLen)]
+}
+
+// fmtVal prints a value for the observation log (large values by length).
+func fmtVal(v []byte) string {
+	if len(v) > 64 {
+		return fmt.Sprintf("<%d bytes>", len(v))
+	}
+	return fmt.Sprintf("%q", v)
 }
 
 // Case is a configuration, a history and a re-entrant script.
@@ -161,9 +189,9 @@ type realRunner struct {
 func (r *realRunner) do(o Op) string {
 	switch o.Kind {
 	case "set":
-		return fmt.Sprintf("set=%v", r.c.Set([]byte(o.Key), o.Val))
+		return fmt.Sprintf("set=%v", r.c.Set([]byte(o.Key), o.value()))
 	case "get":
-		return fmt.Sprintf("get=%q", r.c.Get([]byte(o.Key)))
+		return "get=" + fmtVal(r.c.Get([]byte(o.Key)))
 	case "del":
 		r.c.Del([]byte(o.Key))
 		return "del"
@@ -190,9 +218,9 @@ type modelRunner struct{ m *lruModel }
 func (r *modelRunner) do(o Op) string {
 	switch o.Kind {
 	case "set":
-		return fmt.Sprintf("set=%v", r.m.set(o.Key, o.Val))
+		return fmt.Sprintf("set=%v", r.m.set(o.Key, o.value()))
 	case "get":
-		return fmt.Sprintf("get=%q", r.m.get(o.Key))
+		return "get=" + fmtVal(r.m.get(o.Key))
 	case "del":
 		r.m.del(o.Key)
 		return "del"
@@ -210,7 +238,7 @@ func run(c Case, mk func(cb func(k, v []byte)) runner) (log []string) {
 	var r runner
 	depth := 0
 	cb := func(k, v []byte) {
-		log = append(log, fmt.Sprintf("%sondelete %q %q", strings.Repeat("  ", depth), k, v))
+		log = append(log, fmt.Sprintf("%sondelete %q %s", strings.Repeat("  ", depth), k, fmtVal(v)))
 		if c.CbMode != 2 {
 			return
 		}
@@ -469,6 +497,63 @@ var longProp = vp.Register(vp.Prop[Case]{
 	Check: checkHistory,
 })
 
+// hugeProp: the numerical corners of the configuration.  Limits at and around
+// 2^31, 2^32, 2^63 and the maximum uint, "unlimited" (0) limits, and values
+// that are slices of one shared 1 GiB buffer, so that the accounted total
+// crosses 2^32 bytes with a handful of entries.
+var hugeProp = vp.Register(vp.Prop[Case]{
+	Kind: "c09.huge", Base: 3000,
+	Gen: func(t *rapid.T) Case {
+		limits := []uint{0, 0, 1<<31 - 1, 1 << 31, 1<<32 - 1, 1 << 32, 1<<32 + 7, 3 << 31, 1 << 33, 1<<63 - 1, 1 << 63, maxU - 1, maxU}
+		c := Case{
+			EnableLRU:      rapid.Bool().Draw(t, "lru"),
+			MaxSize:        rapid.SampledFrom(limits).Draw(t, "maxsize"),
+			MaxElementSize: rapid.SampledFrom(limits).Draw(t, "maxelem"),
+			MaxCount:       rapid.SampledFrom([]uint{0, 0, 3, 6, 1 << 32, 1<<32 - 1, 1 << 63, maxU}).Draw(t, "maxcount"),
+			CbMode:         rapid.IntRange(0, 1).Draw(t, "cb"),
+		}
+		n := rapid.IntRange(6, 30).Draw(t, "n")
+		for i := 0; i < n; i++ {
+			o := Op{
+				Kind: rapid.SampledFrom([]string{"set", "set", "set", "set", "set", "set", "get", "get", "del", "stats"}).Draw(t, "kind"),
+				Key:  rapid.SampledFrom(keys).Draw(t, "key"),
+			}
+			if o.Kind == "set" {
+				switch rapid.IntRange(0, 3).Draw(t, "size") {
+				case 0:
+					o.Val = rapid.SliceOfN(rapid.Byte(), 0, 6).Draw(t, "val")
+				case 1:
+					o.Big = bigBufLen
+				default:
+					o.Big = rapid.SampledFrom([]int{1 << 29, 1<<30 - 1, 1<<30 - 8, 3 << 28, 1 << 20}).Draw(t, "big")
+				}
+			}
+			c.Ops = append(c.Ops, o)
+		}
+		return c
+	},
+	Check: func(c Case) error {
+		// Classification from the model alone: the largest accounted total.
+		m := newModel(c, false)
+		var peak uint
+		for _, o := range c.Ops {
+			(&modelRunner{m: m}).do(o)
+			peak = max(peak, m.size)
+		}
+		vp.Class("huge")
+		if peak > 1<<32 {
+			vp.Class("huge:accounted-total-above-2^32")
+			vp.NonTrivialStr("c09.huge", fmt.Sprintf("%+v", c))
+			vp.Sample("huge", c)
+		}
+		if c.MaxSize == 0 && peak > 1<<32 {
+			vp.Class("huge:unlimited-size-above-2^32")
+		}
+		return checkHistory(c)
+	},
+})
+
+func TestHuge(t *testing.T) { vp.Run(t, hugeProp) }
 func TestLongHistory(t *testing.T) { vp.Run(t, longProp) }
 func TestHistory(t *testing.T)     { vp.Run(t, historyProp) }
 func TestReplay(t *testing.T)  { vp.Replay(t) }
